@@ -988,6 +988,597 @@ def check_forget(ck, cm: CacheModel, rule="C06.R5"):
                       "%s leaves the weak reference: a forgotten result can still be served" % name, fa.where())
 
 
+# ---- C06.R5 (scope): forget_function empties the function's share of the resident map ------------------------
+#
+# "The usage counter returns to zero once everything has been forgotten, by whatever sequence of forget
+# operations" needs forget_function to evict EVERY resident entry of the function.  Two clauses decide that
+# from the code alone:
+#   (1) the keys it evicts are enumerated from the resident map itself (or from the recency queue, which C06.R1
+#       keeps a superset of it), and which of them are evicted depends on the key and the function reference only,
+#       not on other cache state (weak table, entry contents, an index);
+#   (2) if they are enumerated from another table of the cache (a per-function index), that table lists every
+#       resident key: each insertion into the resident map records its key in the table as the table holds it at
+#       that moment (not in a bucket looked up before a call that can drop the bucket), and nothing leaves the
+#       table while its entry stays resident.
+
+_WRAP_FUNCS = {"list", "set", "tuple", "sorted", "frozenset", "iter", "reversed", "deque"}
+_ELEMENT_GETTERS = {"get", "setdefault", "__getitem__"}
+_REMOVERS = {"pop", "popitem", "clear", "remove", "discard", "__delitem__"}
+_ADDERS = {"add", "append", "appendleft", "setdefault", "__setitem__"}
+
+
+class Rooted:
+    """An expression that designates a table of the cache or something held inside it: `self.T` (depth 0),
+    `self.T[q]` / `self.T.get(q)` / `self.T.setdefault(q, ...)` (depth 1), ... directly or through locals."""
+
+    def __init__(self, field, depth, keys, hops, orphan):
+        self.field = field      # attribute of self
+        self.depth = depth      # number of element look-ups below the table
+        self.keys = keys        # [(key expression, CFG node where it is evaluated)] per look-up
+        self.hops = hops        # [(CFG node where a local alias was bound, depth of what it names)]
+        self.orphan = orphan    # a look-up may have produced a fresh default object that the table does not hold
+
+
+def rooted(fa: FA, e, at, _n=0):
+    if e is None or _n > 8:
+        return None
+    f = self_attr(e)
+    if f:
+        return Rooted(f, 0, [], [], False)
+    if isinstance(e, ast.Name):
+        ds = fa.df.reaching(at, e.id)
+        if len(ds) == 1 and ds[0].kind == "assign" and ds[0].value is not None and ds[0].node >= 0:
+            r = rooted(fa, ds[0].value, ds[0].node, _n + 1)
+            if r is not None:
+                return Rooted(r.field, r.depth, r.keys, r.hops + [(ds[0].node, r.depth)], r.orphan)
+        if len(ds) == 1 and ds[0].kind == "for" and ds[0].value is not None:
+            # `for bucket in self.T.values():`
+            it = ds[0].value
+            if isinstance(it, ast.Call) and A.call_attr(it) == "values" and not it.args:
+                r = rooted(fa, A.call_recv(it), ds[0].node, _n + 1)
+                if r is not None:
+                    return Rooted(r.field, r.depth + 1, r.keys + [(None, ds[0].node)], r.hops + [(ds[0].node, r.depth + 1)], r.orphan)
+        return None
+    if isinstance(e, ast.Subscript):
+        r = rooted(fa, e.value, at, _n + 1)
+        if r is not None:
+            return Rooted(r.field, r.depth + 1, r.keys + [(e.slice, at)], r.hops, r.orphan)
+        return None
+    if isinstance(e, ast.Call) and A.call_attr(e) in _ELEMENT_GETTERS and e.args and isinstance(e.func, ast.Attribute):
+        r = rooted(fa, e.func.value, at, _n + 1)
+        if r is not None:
+            fresh_default = A.call_attr(e) == "get" and len(e.args) > 1 and not A.is_none(e.args[1])
+            return Rooted(r.field, r.depth + 1, r.keys + [(e.args[0], at)], r.hops, r.orphan or fresh_default)
+    return None
+
+
+def _xkey(fa: FA, e, at) -> str:
+    try:
+        return fa.xnorm(e, at)
+    except AnalysisError:
+        return A.norm(e)
+
+
+class TableUse:
+    """Additions to and removals from one table of the cache inside one method, by CFG node."""
+
+    def __init__(self, fa: FA, table: str):
+        self.fa, self.table = fa, table
+        self.adds = []      # (Rooted receiver, key expr, CFG node, ast)
+        self.removals = []  # (depth at which something is removed, key expr or None, CFG node, ast, kind)
+        cfg = fa.cfg
+        for n in cfg.nodes:
+            if n.ast is None or n.kind not in ("stmt", "test", "for", "with") or n.id not in cfg.reachable_nodes():
+                continue
+            root = n.ast.iter if n.kind == "for" else n.ast
+            if n.kind == "with":
+                root = ast.Tuple(elts=[i.context_expr for i in n.ast.items], ctx=ast.Load())
+            for x in A.walk_local(root):
+                if isinstance(x, ast.Call) and isinstance(x.func, ast.Attribute):
+                    r = rooted(fa, x.func.value, n.id)
+                    if r is None or r.field != table:
+                        continue
+                    nm = x.func.attr
+                    if nm in _REMOVERS:
+                        whole = nm in ("clear", "popitem")
+                        self.removals.append((r.depth - 1 if whole else r.depth, None if whole else (x.args[0] if x.args else None), n.id, x,
+                                              "clear" if whole else "key", r))
+                    elif nm in _ADDERS and x.args:
+                        self.adds.append((r, x.args[0], n.id, x))
+                elif isinstance(x, ast.Subscript) and isinstance(x.ctx, (ast.Store, ast.Del)):
+                    r = rooted(fa, x.value, n.id)
+                    if r is None or r.field != table:
+                        continue
+                    if isinstance(x.ctx, ast.Del):
+                        self.removals.append((r.depth, x.slice, n.id, x, "key", r))
+                    else:
+                        self.adds.append((r, x.slice, n.id, x))
+                elif isinstance(x, ast.Attribute) and isinstance(x.ctx, (ast.Store, ast.Del)) and self_attr(x) == table:
+                    self.removals.append((-1, None, n.id, x, "rebind", None))
+
+    def min_removal_depth(self):
+        return min([d for (d, *_r) in self.removals], default=None)
+
+
+class IndexMirror:
+    """Is table `T` of the cache a complete list of the resident keys?  (clause (2) above)"""
+
+    def __init__(self, ck, cm: CacheModel, table: str):
+        self.ck, self.cm, self.table = ck, cm, table
+        self.uses = {}
+        for name, m in cm.cls.methods.items():
+            if name == "__init__" or m.is_static:
+                continue
+            fa = FA(ck, m)
+            self.uses[name] = TableUse(fa, table)
+        # transitive: the shallowest level at which a call of the method can take something out of the table
+        self.drop_depth = {name: u.min_removal_depth() for name, u in self.uses.items()}
+        changed = True
+        while changed:
+            changed = False
+            for name, u in self.uses.items():
+                for c in u.fa.calls():
+                    callee = self._self_callee(c)
+                    if callee is None or self.drop_depth.get(callee) is None:
+                        continue
+                    d = self.drop_depth[callee]
+                    if self.drop_depth[name] is None or d < self.drop_depth[name]:
+                        self.drop_depth[name] = d
+                        changed = True
+
+    def _self_callee(self, c):
+        if isinstance(c.func, ast.Attribute) and isinstance(c.func.value, ast.Name) and c.func.value.id == "self" and c.func.attr in self.uses:
+            return c.func.attr
+        return None
+
+    def detaching_nodes(self, name, below_depth):
+        """CFG nodes of method `name` that can take out of the table something at a level above `below_depth`
+        (so that an alias of an element at `below_depth` may no longer be what the table holds)."""
+        u = self.uses[name]
+        out = {nid for (d, _k, nid, _x, _kind, _r) in u.removals if d < below_depth}
+        for c in u.fa.calls():
+            callee = self._self_callee(c)
+            if callee is not None and self.drop_depth.get(callee) is not None and self.drop_depth[callee] < below_depth:
+                out |= set(u.fa.nodes(c))
+        return out
+
+    def stale_by(self, name, r: Rooted, use_node):
+        """the CFG node (or None) that can detach what `r` names between the look-up and its use at `use_node`"""
+        cfg = self.uses[name].fa.cfg
+        for (dn, depth) in r.hops:
+            if depth < 1:
+                continue
+            after_def = cfg.reach([dn], removed=[dn], include_start=False)
+            for w in sorted(self.detaching_nodes(name, depth) & after_def):
+                if w == use_node:
+                    continue
+                if use_node in cfg.reach([w], removed=[dn], include_start=False):
+                    return w
+        return None
+
+    def check(self, rule, scope_roots=()):
+        ck, cm, T = self.ck, self.cm, self.table
+        add_depths = set()
+        n_ins = 0
+        # (M) every insertion into the resident map is recorded in the table, in what the table holds at that moment
+        for m in cm.inserts:
+            u = self.uses[m.name]
+            fa = u.fa
+            for st in fa.stmts(ast.Assign):
+                for t in st.targets:
+                    if not (isinstance(t, ast.Subscript) and self_attr(t.value, cm.map)):
+                        continue
+                    ins_nodes = fa.nodes(st)
+                    if not ins_nodes:
+                        continue
+                    n_ins += 1
+                    kx = _xkey(fa, t.slice, ins_nodes[0])
+                    same = [(r, k, nid, x) for (r, k, nid, x) in u.adds if _xkey(fa, k, nid) == kx]
+                    live, stale, orphan = [], [], []
+                    for (r, k, nid, x) in same:
+                        add_depths.add(r.depth)
+                        w = self.stale_by(m.name, r, nid)
+                        if w is not None:
+                            stale.append((x, w))
+                        elif r.orphan:
+                            orphan.append(x)
+                        else:
+                            live.append(nid)
+                    ok = bool(live) and every_path_through(fa, ins_nodes, live)
+                    if ok:
+                        why = "the inserted key is recorded in self.%s" % T
+                        at = st
+                    elif stale and every_path_through(fa, ins_nodes, live + fa.nodes_all([x for (x, _w) in stale])):
+                        x, w = stale[0]
+                        at = x
+                        why = ("`%s` records the inserted key in a part of self.%s that was looked up before `%s`, which can drop that part from the "
+                               "table: the key then lands in an object the table no longer holds, forget_function (which takes its keys from self.%s) "
+                               "misses the resident entry -- it stays served and %s never returns to zero"
+                               % (A.short(fa.stmt_of(x) or x, 50), T, A.short(fa.cfg.node(w).ast, 40), T, cm.counter))
+                    elif orphan:
+                        at = orphan[0]
+                        why = ("`%s` records the inserted key in a default object that self.%s does not hold when the function has no entry yet: "
+                               "forget_function (which takes its keys from self.%s) misses the resident entry" % (A.short(fa.stmt_of(at) or at, 50), T, T))
+                    else:
+                        at = st
+                        why = ("`%s` makes an entry resident without recording its key in self.%s on every path: forget_function takes its keys from "
+                               "that table only, so the entry survives forgetting its function and %s never returns to zero" % (A.short(st, 50), T, cm.counter))
+                    ck.ob(rule, fa.key(None, "index-records-insertion:" + T + ("#%d" % n_ins if n_ins > 1 else "")), ok, why, fa.where(at))
+        # (R) nothing leaves the table while its entry stays resident
+        leaf = max(add_depths) if add_depths else 0
+        for name, u in sorted(self.uses.items()):
+            fa = u.fa
+            map_clear = fa.nodes_all([c for c in fa.calls("clear") if self_attr(A.call_recv(c), cm.map)])
+            for (d, k, nid, x, kind, r) in u.removals:
+                st = fa.stmt_of(x) or x
+                if x in scope_roots or any(x is y for root in scope_roots for y in ast.walk(root)):
+                    continue  # what is taken out here is what forget_function goes on to evict
+                if kind == "key" and d == leaf and k is not None:
+                    kx = _xkey(fa, k, nid)
+                    gone = []
+                    for s2 in fa.stmts(ast.Delete):
+                        for t in s2.targets:
+                            if isinstance(t, ast.Subscript) and self_attr(t.value, cm.map) and any(_xkey(fa, t.slice, i) == kx for i in fa.nodes(s2)):
+                                gone += fa.nodes(s2)
+                    for c in fa.calls():
+                        if ((A.call_attr(c) == "pop" and self_attr(A.call_recv(c), cm.map)) or cm.is_self_call(c, cm.evict)) and c.args \
+                                and any(_xkey(fa, c.args[0], i) == kx for i in fa.nodes(c)):
+                            gone += fa.nodes(c)
+                    ok = bool(gone) and every_path_through(fa, [nid], gone)
+                    ck.ob(rule, fa.key(st, "index-removal-with-eviction:" + T), ok,
+                          "a key leaves self.%s only together with its resident entry" % T if ok else
+                          "`%s` takes a key out of self.%s on a path that does not remove its entry from the resident map: forget_function (which takes "
+                          "its keys from self.%s) then misses a resident entry" % (A.short(st, 50), T, T), fa.where(st))
+                elif d < leaf or kind in ("clear", "rebind"):
+                    if d < 0:
+                        ok = bool(map_clear) and every_path_through(fa, [nid], map_clear)
+                        why = "self.%s is emptied together with the resident map" % T
+                    else:
+                        ok = self._only_when_empty(fa, st, nid, d, k)
+                        why = "a part of self.%s is dropped only once it lists no key" % T
+                    ck.ob(rule, fa.key(st, "index-part-dropped-when-empty:" + T), ok, why if ok else
+                          "`%s` drops a whole part of self.%s that may still list resident keys: forget_function (which takes its keys from self.%s) "
+                          "then misses them" % (A.short(st, 50), T, T), fa.where(st))
+        return n_ins
+
+    def _only_when_empty(self, fa: FA, st, nid, depth, key) -> bool:
+        """every way to the removal has taken a branch edge saying that the part removed (an element of the table at
+        `depth` + 1, under the same key) is empty"""
+        conds = fa.conditions(nid)
+        if not conds:
+            return False
+        kx = _xkey(fa, key, nid) if key is not None else None
+
+        def part(e):
+            # literal texts are fully expanded: only self-rooted chains are left
+            try:
+                r = rooted(fa, e, nid)
+            except Exception:
+                r = None
+            if r is None or r.field != self.table or r.depth != depth + 1:
+                return False
+            if kx is None or not r.keys or r.keys[-1][0] is None:
+                return True
+            return A.norm(r.keys[-1][0]) == kx
+
+        def says_empty(text, pol):
+            try:
+                e = ast.parse(text, mode="eval").body
+            except SyntaxError:
+                return False
+            if part(e):
+                return not pol
+            if isinstance(e, ast.Call) and isinstance(e.func, ast.Name) and e.func.id in ("len", "bool") and len(e.args) == 1 and part(e.args[0]):
+                return not pol
+            if isinstance(e, ast.Compare) and len(e.ops) == 1:
+                l, r_ = e.left, e.comparators[0]
+                is_len = lambda v: isinstance(v, ast.Call) and isinstance(v.func, ast.Name) and v.func.id == "len" and len(v.args) == 1 and part(v.args[0])
+                cnum = lambda v: v.value if isinstance(v, ast.Constant) and isinstance(v.value, int) and not isinstance(v.value, bool) else None
+                opf = {ast.Gt: lambda a, b: a > b, ast.Lt: lambda a, b: a < b, ast.GtE: lambda a, b: a >= b, ast.LtE: lambda a, b: a <= b,
+                       ast.Eq: lambda a, b: a == b, ast.NotEq: lambda a, b: a != b}.get(type(e.ops[0]))
+                if opf is None:
+                    return False
+                if is_len(l) and cnum(r_) is not None:
+                    f = lambda n: opf(n, cnum(r_))
+                elif is_len(r_) and cnum(l) is not None:
+                    f = lambda n: opf(cnum(l), n)
+                else:
+                    return False
+                sat = {n for n in range(0, 6) if f(n) == pol}
+                return sat == {0}
+            return False
+
+        return all(any(says_empty(t_, p_) for (t_, p_) in conj) for conj in conds)
+
+
+class ForgetScope:
+    """Where the keys that a forget operation evicts come from, and what decides which of them are evicted."""
+
+    def __init__(self, fa: FA, cm: CacheModel):
+        self.fa, self.cm = fa, cm
+        self.fields = {}     # self attribute enumerated -> an expression that reads it
+        self.root_exprs = []  # the look-up expressions inside tables that are enumerated
+        self.filters = []    # (condition expression, CFG node, names bound by a comprehension)
+        self.other = []      # sources that are not cache state (parameters, unknown forms)
+        self._seen = set()
+
+    def trace(self, e, at, env=None, _n=0):
+        fa = self.fa
+        env = env or {}
+        if e is None or _n > 14:
+            self.other.append(e)
+            return
+        if isinstance(e, ast.Name):
+            if e.id in env:
+                return self.trace(env[e.id], at, {k: v for k, v in env.items() if k != e.id}, _n + 1)
+            ds = fa.df.reaching(at, e.id)
+            if not ds:
+                self.other.append(e)
+                return
+            for d in ds:
+                if (d.node, d.name) in self._seen:
+                    continue
+                self._seen.add((d.node, d.name))
+                if d.kind in ("assign", "for", "aug") and d.value is not None and d.node >= 0:
+                    if d.kind == "for" and isinstance(getattr(d.stmt, "target", None), (ast.Tuple, ast.List)):
+                        tg = d.stmt.target
+                        if not (tg.elts and isinstance(tg.elts[0], ast.Name) and tg.elts[0].id == e.id):
+                            self.other.append(e)
+                            continue
+                    self.trace(d.value, d.node, None, _n + 1)
+                else:
+                    self.other.append(e)
+            # a collection filled element by element: `acc.append(k)` / `acc.add(k)` / `acc.extend(ks)`
+            for c in fa.calls():
+                if A.call_attr(c) in ("append", "add", "extend", "update", "appendleft") and isinstance(A.call_recv(c), ast.Name) and A.call_recv(c).id == e.id and c.args:
+                    for i in fa.nodes(c):
+                        if (i, "fill:" + e.id) in self._seen:
+                            continue
+                        self._seen.add((i, "fill:" + e.id))
+                        self.trace(c.args[0], i, None, _n + 1)
+                        self.path_filters(i)
+            return
+        f = self_attr(e)
+        if f:
+            self.fields.setdefault(f, e)
+            return
+        if isinstance(e, ast.Call):
+            nm = A.call_attr(e)
+            if isinstance(e.func, ast.Name) and nm in _WRAP_FUNCS and e.args:
+                return self.trace(e.args[0], at, env, _n + 1)
+            if isinstance(e.func, ast.Name) and nm == "filter" and len(e.args) == 2:
+                self.filters.append((e.args[0], at, set(env)))
+                return self.trace(e.args[1], at, env, _n + 1)
+            if nm == "next" and isinstance(e.func, ast.Name) and e.args:
+                return self.trace(e.args[0], at, env, _n + 1)
+            if nm in ("chain", "union") and (e.args or isinstance(e.func, ast.Attribute)):
+                if isinstance(e.func, ast.Attribute) and nm == "union":
+                    self.trace(e.func.value, at, env, _n + 1)
+                for a in e.args:
+                    self.trace(a.value if isinstance(a, ast.Starred) else a, at, env, _n + 1)
+                return
+            if isinstance(e.func, ast.Attribute):
+                if nm in ("keys", "copy", "items", "values") and not e.args:
+                    return self.trace(e.func.value, at, env, _n + 1)
+                if nm in ("intersection", "difference"):
+                    for a in e.args:
+                        self.filters.append((a, at, set(env)))
+                    return self.trace(e.func.value, at, env, _n + 1)
+                if nm in ("get", "pop", "setdefault", "__getitem__") and e.args:
+                    r = rooted(fa, e.func.value, at)
+                    if r is not None:
+                        self.fields.setdefault(r.field, e)
+                        self.root_exprs.append(e)
+                        return
+            self.other.append(e)
+            return
+        if isinstance(e, ast.Subscript):
+            r = rooted(fa, e.value, at)
+            if r is not None:
+                self.fields.setdefault(r.field, e)
+                self.root_exprs.append(e)
+                return
+            self.other.append(e)
+            return
+        if isinstance(e, (ast.ListComp, ast.SetComp, ast.GeneratorExp)):
+            nb = dict(env)
+            for g in e.generators:
+                tg = g.target
+                if isinstance(tg, ast.Name):
+                    nb[tg.id] = g.iter
+                elif isinstance(tg, (ast.Tuple, ast.List)) and tg.elts and isinstance(tg.elts[0], ast.Name):
+                    nb[tg.elts[0].id] = g.iter
+                for c in g.ifs:
+                    self.filters.append((c, at, {n_.id for g2 in e.generators for n_ in ast.walk(g2.target) if isinstance(n_, ast.Name)}))
+            if isinstance(e.elt, ast.Name) and e.elt.id in nb:
+                return self.trace(e.elt, at, nb, _n + 1)
+            self.other.append(e)
+            return
+        if isinstance(e, ast.BinOp) and isinstance(e.op, (ast.BitOr, ast.Add)):
+            self.trace(e.left, at, env, _n + 1)
+            self.trace(e.right, at, env, _n + 1)
+            return
+        if isinstance(e, ast.BinOp) and isinstance(e.op, (ast.BitAnd, ast.Sub)):
+            self.filters.append((e.right, at, set(env)))
+            return self.trace(e.left, at, env, _n + 1)
+        if isinstance(e, ast.IfExp):
+            self.filters.append((e.test, at, set(env)))
+            self.trace(e.body, at, env, _n + 1)
+            self.trace(e.orelse, at, env, _n + 1)
+            return
+        if isinstance(e, (ast.List, ast.Tuple, ast.Set)):
+            for x in e.elts:
+                if isinstance(x, ast.Starred):
+                    self.trace(x.value, at, env, _n + 1)
+                elif not isinstance(x, ast.Constant):
+                    self.other.append(x)
+            return
+        if isinstance(e, ast.Starred):
+            return self.trace(e.value, at, env, _n + 1)
+        self.other.append(e)
+
+    def path_filters(self, nid, key=None):
+        """the branch literals under which CFG node `nid` is reached (a test whether the key itself was found -- `k is None`,
+        `not k` -- says nothing about cache state beyond what the enumeration of `k` already does)"""
+        conds = self.fa.conditions(nid)
+        own = set()
+        if key is not None and not isinstance(key, ast.Starred):
+            kx = _xkey(self.fa, key, nid)
+            own = {kx, kx + " is None"}
+        for conj in (conds or []):
+            for (t_, p_) in conj:
+                if t_ not in own:
+                    self.filters.append((t_, nid, set()))
+
+    def state_in_filter(self, flt):
+        """-> names of the attributes of self on which a selection condition depends, other than a test whether the key is
+        resident / queued"""
+        (c, at, bound) = flt
+        cm = self.cm
+        if isinstance(c, str):
+            try:
+                e = ast.parse(c, mode="eval").body
+            except SyntaxError:
+                return {"?"} if "self." in c else set()
+        else:
+            e = c
+            if not isinstance(e, ast.Lambda):
+                try:
+                    ex = self.fa.expand(e, at)
+                    e = ex
+                except Exception:
+                    pass
+        out = set()
+
+        def harmless(x, parent):
+            # `k in self.map`, `k in self.queue`, `self.map.get(k) is None`, truth / length of the map
+            f = self_attr(x)
+            if f not in (cm.map, cm.queue):
+                return False
+            if isinstance(parent, ast.Compare) and len(parent.ops) == 1 and isinstance(parent.ops[0], (ast.In, ast.NotIn)) and parent.comparators[0] is x:
+                return True
+            return False
+
+        pm = {ch: p for p in ast.walk(e) for ch in ast.iter_child_nodes(p)}
+        for x in ast.walk(e):
+            f = self_attr(x)
+            if f and not harmless(x, pm.get(x)):
+                # the bare map / queue as a truth value or under len(): "is anything resident at all"
+                p = pm.get(x)
+                if f in (cm.map, cm.queue) and (p is None or isinstance(p, (ast.UnaryOp, ast.BoolOp)) or
+                                                 (isinstance(p, ast.Call) and isinstance(p.func, ast.Name) and p.func.id in ("len", "bool"))):
+                    continue
+                if isinstance(p, ast.Attribute) and isinstance(pm.get(p), ast.Call) and pm.get(p).func is p:
+                    # a method of self: private key builders read no state
+                    if p.attr.startswith("_cache_key"):
+                        continue
+                out.add(f)
+        return out
+
+
+def _comprehension_env(fa: FA, node):
+    """comprehension variables visible at `node`: name -> iterable"""
+    env = {}
+    p = fa.pm.get(node)
+    while p is not None and not isinstance(p, ast.stmt):
+        if isinstance(p, (ast.ListComp, ast.SetComp, ast.GeneratorExp, ast.DictComp)):
+            for g in p.generators:
+                tg = g.target
+                if isinstance(tg, ast.Name):
+                    env.setdefault(tg.id, g.iter)
+                elif isinstance(tg, (ast.Tuple, ast.List)) and tg.elts and isinstance(tg.elts[0], ast.Name):
+                    env.setdefault(tg.elts[0].id, g.iter)
+        p = fa.pm.get(p)
+    return env
+
+
+def check_forget_scope(ck, cm: CacheModel, rule="C06.R5"):
+    m = cm.cls.methods.get("forget_function")
+    ck.need(m is not None, "MemoryCache.forget_function not found")
+    fa = FA(ck, m)
+    # eviction events: (key expression, CFG node, ast for the report)
+    events = []
+    for c in fa.calls():
+        if cm.is_self_call(c, cm.evict) and c.args:
+            events.append((c.args[0], c))
+        elif A.call_attr(c) == "pop" and self_attr(A.call_recv(c), cm.map) and c.args:
+            events.append((c.args[0], c))
+        elif isinstance(c.func, ast.Name) and c.func.id == "map" and len(c.args) == 2 and isinstance(c.args[0], ast.Attribute) \
+                and self_attr(c.args[0]) == cm.evict.name:
+            events.append((ast.Starred(value=c.args[1], ctx=ast.Load()), c))
+    for d in fa.stmts(ast.Delete):
+        for t in d.targets:
+            if isinstance(t, ast.Subscript) and self_attr(t.value, cm.map):
+                events.append((t.slice, d))
+    if not events:
+        return  # reported by the "evicts" obligation
+    sc = ForgetScope(fa, cm)
+    for (k, site) in events:
+        for i in fa.nodes(site):
+            env = _comprehension_env(fa, k) if not isinstance(k, ast.Starred) else {}
+            # conditions of an enclosing comprehension
+            q = site
+            while q is not None and not isinstance(q, ast.stmt):
+                if isinstance(q, (ast.ListComp, ast.SetComp, ast.GeneratorExp, ast.DictComp)):
+                    for g in q.generators:
+                        for cnd in g.ifs:
+                            sc.filters.append((cnd, i, set(env)))
+                q = fa.pm.get(q)
+            sc.trace(k, i, env)
+            sc.path_filters(i, k)
+    aux = sorted(f for f in sc.fields if f not in (cm.map, cm.queue, cm.refs, cm.counter, cm.budget))
+    from_map = [f for f in sc.fields if f in (cm.map, cm.queue)]
+    at = events[0][1]
+    if not sc.fields and sc.other:
+        # a form of enumeration this rule does not follow: decide on what the evicted key depends on
+        deps = set()
+        for (k, site) in events:
+            try:
+                deps |= fa.deps(k.value if isinstance(k, ast.Starred) else k)
+            except AnalysisError:
+                pass
+        flds = {d_.split(".")[1] for d_ in deps if d_.startswith("attr:self.") and len(d_.split(".")) > 1}
+        from_map = [f for f in flds if f in (cm.map, cm.queue)]
+        aux = sorted(f for f in flds if f not in (cm.map, cm.queue, cm.refs, cm.counter, cm.budget) and not f.startswith("_cache_key"))
+        if cm.refs in flds and not from_map and not aux:
+            sc.fields[cm.refs] = None
+    ok_src = bool(from_map) or bool(aux)
+    why = "the keys forget_function evicts are enumerated from the resident map" if from_map else \
+        "the keys forget_function evicts are enumerated from self.%s (held to list every resident key)" % ", self.".join(aux)
+    if not ok_src:
+        src = "the weak-reference table, which lists only results that are still alive elsewhere" if cm.refs in sc.fields else \
+            ("`%s`" % A.short(sc.other[0], 50) if sc.other and sc.other[0] is not None else "something else")
+        why = ("forget_function takes the keys it evicts from %s, not from the resident map: resident entries of the function that are not listed "
+               "there stay resident and served after the function was forgotten, and %s never returns to zero" % (src, cm.counter))
+    ck.ob(rule, fa.key(None, "scope-enumerates-resident-map"), ok_src, why, fa.where(at))
+    # what decides which of the enumerated keys are evicted
+    bad = {}
+    for flt in sc.filters:
+        for f in sc.state_in_filter(flt):
+            if f in aux:
+                continue  # held to be a complete list below
+            bad.setdefault(f, flt)
+    okf = not bad
+    if bad:
+        f0 = sorted(bad)[0]
+        c0 = bad[f0][0]
+        whyf = ("whether forget_function evicts a resident key of the function depends on self.%s (`%s`): entries for which that test fails stay "
+                "resident and served after the function was forgotten, and %s never returns to zero"
+                % (f0, c0 if isinstance(c0, str) else A.short(c0, 60), cm.counter))
+    else:
+        whyf = "which keys are evicted depends on the key and the function reference only"
+    ck.ob(rule, fa.key(None, "scope-not-narrowed-by-state"), okf, whyf, fa.where(at))
+    # an index instead of a scan: the index must list every resident key
+    if ok_src and not from_map:
+        for T in aux:
+            IndexMirror(ck, cm, T).check(rule, scope_roots=sc.root_exprs)
+    elif aux:
+        # the map is enumerated and an index only narrows the selection: same obligations
+        for T in aux:
+            if any(T in sc.state_in_filter(flt) for flt in sc.filters) or T in sc.fields:
+                IndexMirror(ck, cm, T).check(rule, scope_roots=sc.root_exprs)
+
+
 def check(ck):
     from .memo import check_new_memo_tables
     ck.run(check_new_memo_tables, ck, "C06.M1", ('storage_base',))
@@ -1000,6 +1591,7 @@ def check(ck):
     ck.run(check_estimates_bounded_below, ck, cm, "C06.R1")
     ck.run(check_replace_on_put, ck, cm, "C06.R4")
     ck.run(check_forget, ck, cm, "C06.R5")
+    ck.run(check_forget_scope, ck, cm, "C06.R5")
     # the accounts are only honest if each public operation updates map, queue and counter in ONE critical
     # section of the cache lock (shared with C09.R3): a put split over two sections lets another put
     # of the same key in between, and the size is counted twice / the budget exceeded
